@@ -24,7 +24,8 @@ let run toks =
           (f (unordered_eq a a)) (f (value_eqb a b)),
         Printf.sprintf "ab=%s ba=%s asu=%s wrap=%s refl=1 eq=%s" (f s) (f s) (f s) (f s) (f (value_eqb a b)))
      | _ -> raise (Bad_case "u"))
-  | "uh" :: _ :: ops ->
+  | "uh" :: nk :: ops ->
+    Fam_object.set_universe nk;
     let rec split acc = function
       | "/" :: r -> (List.rev acc, r)
       | x :: r -> split (x :: acc) r
